@@ -367,6 +367,17 @@ def impl():
     for nm, cls in (("csbk", CSBK), ("dataheader", DataHeader), ("flc", FullLinkControl), ("udp", UDPIPv4CompressedHeader)):
         E[f"{nm}.from_bytes"] = (lambda cls: lambda data: cls.from_bytes(data))(cls)
         E[f"{nm}.as_bytes"] = (lambda cls: lambda data: cls.from_bytes(data).as_bytes())(cls)
+    def twice(parse, ser):
+        def f(x):
+            o = parse(x)
+            return [ser(o), ser(o)]
+        return f
+
+    for nm, cls in (("csbk", CSBK), ("dataheader", DataHeader), ("flc", FullLinkControl), ("slc", ShortLinkControl), ("pi", PIHeader),
+                    ("rate12", Rate12Data), ("rate34", Rate34Data), ("rate1", Rate1Data), ("slottype", SlotType), ("emb", EmbeddedSignalling),
+                    ("udp", UDPIPv4CompressedHeader)):
+        E[f"{nm}.as_bits_twice"] = twice(cls.from_bits, lambda o: o.as_bits())
+        E[f"{nm}.repr_twice"] = twice(cls.from_bits, lambda o: repr(o))
     for nm, cls, tcls in (("rate12", Rate12Data, Rate12DataTypes), ("rate34", Rate34Data, Rate34DataTypes), ("rate1", Rate1Data, Rate1DataTypes)):
         E[f"{nm}.typed"] = (lambda cls, tcls: lambda bits, t: both(cls.from_bits_typed(bits, list(tcls)[t % len(list(tcls))])))(cls, tcls)
     E["flc.repr"] = lambda bits: repr(FullLinkControl.from_bits(bits))
@@ -406,6 +417,11 @@ def impl():
                     ("hstrp_type", HSTRPPacketType), ("hstrp_options", HSTRPOptions)):
         E[f"{nm}.from_bytes"] = (lambda cls: lambda data: cls.from_bytes(data))(cls)
         E[f"{nm}.as_bytes"] = (lambda cls: lambda data: cls.from_bytes(data).as_bytes())(cls)
+    for nm, cls in (("hdap", HDAP), ("hrnp", HRNP), ("hstrp", HSTRP), ("gpsdata", GPSData)):
+        E[f"{nm}.as_bytes_twice"] = twice(cls.from_bytes, lambda o: o.as_bytes())
+    E["burst.as_bytes_twice"] = lambda data, bt: twice(lambda d: Burst.from_bytes(d, btype(bt)), lambda o: [o.as_bytes(), repr(o), o.target_radio_id])(data)
+    E["mbxml.as_bytes_twice"] = twice(lambda d: MBXML.from_bytes(d), lambda ds: [[MBXML.as_bytes(x) for x in ds], [x.as_xml() for x in ds]])
+    E["ars.as_bytes_twice"] = twice(AutomaticRegistrationService.from_bytes, lambda o: [o.as_bytes(), repr(o)])
     E["hrnp.repr"] = lambda data: repr(HRNP.from_bytes(data))
     E["hstrp.repr"] = lambda data: repr(HSTRP.from_bytes(data))
     E["rcp.default_settings"] = lambda rel: both(RadioControlProtocol(opcode=RCPOpcode.StatusChangeNotificationRequest, is_reliable=bool(rel)))
@@ -545,7 +561,7 @@ INPLACE_OK = {"h743.check_and_correct", "h1393.check_and_correct", "h15113.check
               "h17123.check_and_correct", "bptc.repair_deinterleaved"}
 
 
-def execute(spec):
+def execute(spec, full=False):
     """one call: [canonical result, [changed argument indices], note]"""
     E = impl()
     name = spec["ep"]
@@ -564,6 +580,8 @@ def execute(spec):
         res = "ERR " + type(e).__name__
     changed = []
     note = ""
+    if name.endswith("_twice") and isinstance(raw, list) and len(raw) >= 2 and canon(raw[0]) != canon(raw[1]):
+        note = "TWICE-DIFFERS " + squash(canon(raw[0]), 200) + " | " + squash(canon(raw[1]), 200)
     for i, (a, b) in enumerate(zip(args, before)):
         if b is None:
             continue
@@ -576,7 +594,7 @@ def execute(spec):
                 note = "in-place repair returned the repaired argument buffer"
                 continue
             changed.append([i, squash(b, 300), squash(after, 300)])
-    return [squash(res), changed, note]
+    return [res if full else squash(res), changed, note]
 
 
 # ------------------------------------------------------------------------------------------------
@@ -634,6 +652,9 @@ def probe():
                     elif isinstance(v, type) and issubclass(v, enum.Enum) and isinstance(av, v):
                         if not immutable(av.value):
                             out[f"enum:{mname}.{k}.{ak}"] = h(av.value)
+                        extra = {x: y for x, y in vars(av).items() if x not in ("_value_", "_name_", "__objclass__", "_sort_order_", "_hashable_values_") and not immutable(y)}
+                        if extra:
+                            out[f"enum-member-state:{mname}.{k}.{ak}"] = h(extra)
                     elif not immutable(av) and not callable(av) and not isinstance(av, (types.MemberDescriptorType, types.GetSetDescriptorType)) and not ak.startswith("_abc") and ak not in ("_member_map_", "_member_names_", "_value2member_map_", "_unhashable_values_", "_hashable_values_", "_unhashable_values_map_"):
                         out[f"class:{mname}.{k}.{ak}"] = h(av)
             elif not immutable(v) and not isinstance(v, type) and getattr(v, "__module__", mname) is not None and type(v).__module__ not in ("typing", "logging") and not callable(v):
@@ -702,12 +723,12 @@ def serve():
         if op == "quit":
             break
         if op == "first":
-            res = [child(lambda s=s: execute(s), 60) for s in req["specs"]]
+            res = [child(lambda s=s: execute(s, req.get("full", False)), 60) for s in req["specs"]]
             resp = {"r": [x if isinstance(x, list) else ["ERR worker " + x.get("child_error", "?"), [], ""] for x in res]}
         elif op == "seq":
 
-            def run_seq(calls=req["calls"], want_probe=req.get("probe", True)):
-                rs = [execute(s) for s in calls]
+            def run_seq(calls=req["calls"], want_probe=req.get("probe", True), full=req.get("full", False)):
+                rs = [execute(s, full and i == len(calls) - 1) for i, s in enumerate(calls)]
                 return {"r": rs, "probe": probe() if want_probe else None}
 
             resp = child(run_seq, 600)
